@@ -428,6 +428,9 @@ func (c *Ctx) runValueArgs() {
 			}
 			// the *Value(s) whose reflect value is handed over
 			bases := map[string]ssa.Value{}
+			// where the value was taken up (the call itself, or the block in which it was put into a list that is handed
+			// over later): the emptiness test of its subtype must hold there
+			takenAt := map[string]*ssa.BasicBlock{}
 			var look func(v ssa.Value, d int)
 			look = func(v ssa.Value, d int) {
 				if v == nil || d > 6 {
@@ -440,6 +443,9 @@ func (c *Ctx) runValueArgs() {
 				if cl, ok := v.(*ssa.Call); ok && core.CalleeName(cl.Common()) == "(reflect.Value).Interface" {
 					if fr, ok := core.AsFieldLoad(cl.Common().Args[0]); ok && fr.Field == "Value" && fr.Owner == "Value" {
 						bases[core.Path(elemOf(fr.Base))] = elemOf(fr.Base)
+						if cl.Block() != nil && cl.Block() != ci.Block() {
+							takenAt[core.Path(elemOf(fr.Base))] = cl.Block()
+						}
 					}
 					return
 				}
@@ -478,7 +484,11 @@ func (c *Ctx) runValueArgs() {
 					}
 					// the constructor cannot carry a subtype: only where the value's subtype is known to be empty
 					empty := false
-					for _, l := range p.ExpandLitsKeep(core.Lits(core.Guards(ci.Block()))) {
+					gb := ci.Block()
+					if tb, ok := takenAt[bp]; ok {
+						gb = tb
+					}
+					for _, l := range p.ExpandLitsKeep(core.Lits(core.Guards(gb))) {
 						if l.Kind == "cmp" && l.Op == token.EQL && l.Pol {
 							for _, pr := range [][2]ssa.Value{{l.X, l.Y}, {l.Y, l.X}} {
 								if s0, ok := core.ConstString(pr[1]); ok && s0 == "" {
